@@ -19,7 +19,11 @@ def floor_ms(t):
 class C03(Prop):
     ID = "C03"
     MODULE = "AwProofs.Props.C03"
-    THEOREMS = []
+    THEOREMS = ["AwProofs.C03." + n for n in (
+        "round_start", "round_end", "window_tolerance", "sound_sqlite", "complete_sqlite_partial", "sorted_desc_sqlite",
+        "limit_sqlite", "count_agrees_sqlite", "sound_memory", "complete_memory", "sorted_desc_memory", "limit_memory",
+        "count_agrees_memory", "missing_memory", "sound_peewee", "complete_peewee", "peewee_clip", "sorted_desc_peewee",
+        "limit_peewee", "count_agrees_peewee")]
     WORKERS = 10
     LEVEL_TEXT = "Lean 4 theorems on the read functions of the three backend models: soundness, completeness, order, limit, count, clipping"
     LEVEL_NOTE = "trusts: Lean kernel; SQLite julianday/strftime arithmetic of the peewee range filter is a bounded-error parameter (compared tolerantly at window edges); differential tie"
